@@ -34,6 +34,18 @@ def alphabet(pool, cfg, history):
     for x in (OPS.D0, OPS.S0, OPS.S2, OPS.P0):
         for _, v in ID_ATOMS:
             ops.append(["new_id", x, v])
+    # the id of a sibling (S0/S1 are siblings in the built start state, P0 sits next to S2), given in upper case
+    for x, y in ((OPS.S0, OPS.S1), (OPS.S1, OPS.S0), (OPS.S2, OPS.S0), (OPS.P0, OPS.P1)):
+        ops.append(["new_id_of", x, y])
+    for x in (OPS.S0, OPS.S1, OPS.P0):
+        for nm in (None, ""):
+            op = ["rename", x, nm]
+            if op not in ops:
+                ops.append(op)
+    for x in range(9, min(len(pool), 13)):       # objects created by the history: each other's ids
+        for y in range(9, min(len(pool), 13)):
+            if x != y and OPS.kind(pool[x]) == OPS.kind(pool[y]) and OPS.kind(pool[x]) in "SP":
+                ops.append(["new_id_of", x, y])
     for x in range(9, min(len(pool), 13)):       # objects created by the history
         if OPS.kind(pool[x]) in "SP":
             for nm in (None, ""):
@@ -108,6 +120,11 @@ START_SHARED_ID = [["append", OPS.D0, OPS.S0],
                    ["new_section", "x", OPS.D0, {"oid": VALID}], ["new_section", "y", OPS.D0, {"oid": VALID}],
                    ["new_property", "x", OPS.S0, {"oid": VALID}], ["new_property", "y", OPS.S0, {"oid": VALID}]]
 
+# fourth start state: siblings created without a name (each is named like its own id)
+START_UNNAMED = [["append", OPS.D0, OPS.S0],
+                 ["new_section", None, OPS.D0, {}], ["new_section", None, OPS.D0, {}],
+                 ["new_property", None, OPS.S0, {}], ["new_property", None, OPS.S0, {}]]
+
 PLANS = {
     "quick": [{"level": "full"}, {"level": "full"}],
     "thorough": [{"level": "full"}, {"level": "full"}, {"level": "core"}],
@@ -122,7 +139,7 @@ def check(tier):
     plan = PLANS[tier]
     run.bounds = {"depth": len(plan), "alphabet_per_level": [c["level"] for c in plan],
                   "id_atoms": [n for n, _ in ID_ATOMS]}
-    hist.bfs(run, "checks.c04", [OPS.START_DETACHED, OPS.START_BUILT, START_SHARED_ID], plan)
+    hist.bfs(run, "checks.c04", [OPS.START_DETACHED, OPS.START_BUILT, START_SHARED_ID, START_UNNAMED], plan)
     return run.finish(reproduce=lambda f: replay(f))
 
 
